@@ -64,6 +64,8 @@ func vh_RV() {
 	vAssert(vImplies(granted, vOr(vOr(pre.votedFor == "", pre.votedFor == req.CandidateID), req.Term > pre.term)), "C02|C08.one-vote-per-term")
 	vAssert(vImplies(granted, vAnd(post.durVote == req.CandidateID, post.durTerm == req.Term)), "C02|C08.vote-durable-before-reply")
 	vAssert(vImplies(granted, resp.Term == req.Term), "C02.grant-reply-term")
+	// GA3 facts the sender-side harness (vh_SRV) assumes about replies
+	vAssert(vImplies(vAnd(resp.VoteGranted, req.Prevote), resp.Term <= req.Term), "C02|C16.prevote-grant-reply-term")
 	// G2: a recorded vote of an unchanged term is never replaced or cleared
 	vAssert(vImplies(vAnd(post.term == pre.term, pre.votedFor != ""), post.votedFor == pre.votedFor), "C02|C08.vote-stable(G2)")
 	// no grant for a stale term
